@@ -79,7 +79,9 @@ fn check_one(p: &Program, mask: &[bool], root: usize, l: &mut Local, sub: &str, 
             }
             _ => {}
         }
-        if !expected {
+    }
+    for v in nl..p.nv() {
+        if !(reached[v] && t[v]) {
             continue;
         }
         let e = &log[pos[v].unwrap()];
